@@ -105,29 +105,28 @@ Proof.
   - unfold fine. cbn. split; [discriminate|discriminate].
 Qed.
 
-(* ---------- BytesSkipDecoder.Next (entry 21): C08's theorem about the template over the slice
-   instance; it carries the hypothesis len b < 2^31 because the template's fast paths multiply a
-   declared count by an element width in int arithmetic on values read as int32 — on inputs of 2 GiB
-   and more the declared counts that fit are no longer below 2^31 (see the C08 claim) ---------- *)
+(* ---------- BytesSkipDecoder.Next (entry 21): C08's theorems about the template over the slice
+   instance (no size bound is needed since the repair /repo 2c7f196: a declared size with the sign
+   bit set is rejected as negative) ---------- *)
 From GV Require Import Proofs.SkipDecodersP.
 Open Scope Z_scope.
 
-Lemma bytes_skip_fine b t : wf b -> (t < 256)%N -> (len b < two31)%N -> fine (len b) (bytes_skip_cls b t).
+Lemma bytes_skip_fine b t : wf b -> (t < 256)%N -> fine (len b) (bytes_skip_cls b t).
 Proof.
-  intros Hw Ht Hl. unfold bytes_skip_cls. apply cls_fine.
+  intros Hw Ht. unfold bytes_skip_cls. apply cls_fine.
   - apply bs_next_safe; assumption.
   - intros out E. destruct (bs_next (bs_new b) t) as [s r] eqn:Eb. cbn [snd] in E. subst r.
-    destruct (bs_next_bounded b t s out Hw Ht Hl Eb) as [[_ H] _]. lia.
+    destruct (bs_next_bounded b t s out Hw Ht Eb) as [[_ H] _]. lia.
 Qed.
 
 Theorem run_entry_fine entry t b :
-  wf b -> Z.of_N t < 256 -> (entry = 21 -> (len b < two31)%N) ->
+  wf b -> Z.of_N t < 256 ->
   fst (run_entry entry t b) <> 2 /\
   (fst (run_entry entry t b) = 0 -> snd (run_entry entry t b) <= Z.of_N (len b)).
 Proof.
-  intros Hw Ht H21. destruct (Z.eq_dec entry 21) as [E|E].
+  intros Hw Ht. destruct (Z.eq_dec entry 21) as [E|E].
   - subst entry. change (run_entry 21 t b) with (bytes_skip_cls b t).
-    apply bytes_skip_fine; [exact Hw|lia|apply H21; reflexivity].
+    apply bytes_skip_fine; [exact Hw|lia].
   - apply run_entry_fine_no21; assumption.
 Qed.
 
